@@ -2,7 +2,7 @@
 C14 — Mounted stores: routing, key translation and union views are exact.
 
 Model: `mountOps P supp` / `prefixOps P p` (LiquerModel/StoreMount.lean) = `MountPointStore` /
-`PrefixStore` with the proposed fixes D7a-D7e; all parts are models of one type `P : StoreOps σ`;
+`PrefixStore` with the proposed fixes D7a-D7f; all parts are models of one type `P : StoreOps σ`;
 state `(default?, routing table in mount order)`.  `T` = the constantly-true `is_supported` of
 `MemoryStore` / `FileStore`.
 
@@ -12,15 +12,17 @@ state `(default?, routing table in mount order)`.  `T` = the constantly-true `is
   on the path to `k`.  `prefix_strips`: the routed `PrefixStore` serves the key with the prefix stripped.
 * `mount_union_*` (any number of mounts, `tableWF`): directory flag, containment, bytes, reported metadata
   key, directory listing and `keys()` of the composite are the re-prefixed union of the parts, mount
-  points and their parents being directories; `keys()` lists every key exactly once.
+  points and their parents being directories (and listed); `keys()` lists every key exactly once.
 * `mount_write_exclusive`: store / store_metadata / remove / makedir change exactly the owning part, as
   the operation on the stripped key does; every other part and the default store are unchanged.
 * `to_root_key_reaches_partial`: `sub.to_root_key(k)` read through the root reaches entry `k` of `sub`
   provided no inner mount shadows it; the unrestricted statement is false (witness below).
-* known finding (not repaired): `keys()` does not list the parents of mount points although they are
-  contained — `mount_keys_complete_statement` is refuted on a witness; mount points themselves are listed.
+* `mount_keys_complete` / `mount_keys_exact` (fix D7f, the former finding "parents of mount points are contained
+  but not listed" is repaired): `keys()` appends the parents of mount points that no store listed, so every
+  non-root key the composite contains is listed — and nothing else, each once (`mount_keys_once` for tree-shaped parts).
 -/
 import LiquerProofs.Lemmas.StoreMount
+import LiquerProofs.Lemmas.StoreSpec
 
 namespace Liquer.C14
 open Liquer Liquer.SV Liquer.MtL
@@ -132,13 +134,13 @@ theorem mount_union_listdir_noroute (s : MtState σ) (hwf : tableWF (s.2.map (·
       ∀ nm, nm ∈ l ↔ ∃ q st', (q, st') ∈ s.2 ∧ (k ++ [nm]) <+: q :=
   mount_listdir_noroute P s hwf k hn hd
 
-/-- **`keys()`**: exactly the mount points, the re-prefixed keys of every mounted store that the store owns
-(innermost mount on the path), and the default store's keys with no mount on the path — each once. -/
+/-- **`keys()`**: exactly the mount points and their parents, the re-prefixed keys of every mounted store that the
+store owns (innermost mount on the path), and the default store's keys with no mount on the path — each once. -/
 theorem mount_union_keys (K : σ → List Key) (hK : ∀ st, P.keys st = .ok (K st)) (s : MtState σ)
     (hwf : tableWF (s.2.map (·.1)) = true) :
     ∃ ks, (M P).keys s = .ok ks ∧
       (∀ x, x ∈ ks ↔
-        ((∃ p st, (p, st) ∈ s.2 ∧ x = p) ∨
+        ((x ≠ [] ∧ ∃ p st, (p, st) ∈ s.2 ∧ x <+: p) ∨
          (∃ i p st kk, s.2[i]? = some (p, st) ∧ kk ∈ K st ∧ kk ≠ [] ∧ x = p ++ kk ∧ Owns s.2 i x) ∨
          (∃ d, s.1 = some d ∧ x ∈ K d ∧ NoMount s.2 x))) ∧
       ((∀ e, e ∈ s.2 → (K e.2).Nodup) → (∀ d, s.1 = some d → (K d).Nodup) → ks.Nodup) := by
@@ -229,20 +231,141 @@ theorem to_root_key_reaches_partial (s : MtState σ) (hwf : tableWF (s.2.map (·
 /-- the default store's keys are root keys already -/
 theorem to_root_key_default (tbl : List (Key × σ)) (k : Key) : Mt.toRootKey tbl none k = k := rfl
 
-/-! ### known finding: parents of mount points are contained but not listed by `keys()` -/
+/-! ### `keys()` is complete: every non-root key the composite contains is listed (fix D7f) -/
 
+/-- the full statement (false before D7f: the parents of mount points were contained but not listed) -/
 def mount_keys_complete_statement : Prop :=
   ∀ (s : MtState FS) (x : Key) (ks : List Key), tableWF (s.2.map (·.1)) = true → x ≠ [] →
     (M specOps).contains s x = .ok true → (M specOps).keys s = .ok ks → x ∈ ks
 
-/-- what does hold: every mount point is listed -/
+/-- every key is either owned by a mounted store or has no mount on its path -/
+theorem owns_or_nomount (tbl : List (Key × σ)) (hwf : tableWF (tbl.map (·.1)) = true) (k : Key) :
+    (∃ i, Owns tbl i k) ∨ NoMount tbl k := by
+  cases h : Mt.routeIdx T tbl k with
+  | none => exact Or.inr ((route_none_iff tbl k).mp h)
+  | some i => exact Or.inl ⟨i, (route_innermost tbl hwf k i).mp h⟩
+
+/-- every mount point and every parent of a mount point is listed -/
 theorem mount_keys_complete_partial (K : σ → List Key) (hK : ∀ st, P.keys st = .ok (K st)) (s : MtState σ)
-    (hwf : tableWF (s.2.map (·.1)) = true) (p : Key) (st : σ) (hm : (p, st) ∈ s.2) (ks : List Key)
-    (h : (M P).keys s = .ok ks) : p ∈ ks := by
+    (hwf : tableWF (s.2.map (·.1)) = true) (x p : Key) (st : σ) (hm : (p, st) ∈ s.2) (hx : x ≠ []) (hp : x <+: p)
+    (ks : List Key) (h : (M P).keys s = .ok ks) : x ∈ ks := by
   obtain ⟨ks', h1, h2, _⟩ := mount_union_keys P K hK s hwf
   rw [h1] at h
   cases h
-  exact (h2 p).mpr (Or.inl ⟨p, st, hm, rfl⟩)
+  exact (h2 x).mpr (Or.inl ⟨hx, p, st, hm, hp⟩)
+
+/-- **completeness of `keys()`**, any part model whose own listing covers what it contains: every non-root key
+the composite contains is listed -/
+theorem mount_keys_complete_gen (K : σ → List Key) (hK : ∀ st, P.keys st = .ok (K st))
+    (hC : ∀ st k, k ≠ [] → (P.isDir st k = .ok true ∨ P.contains st k = .ok true) → k ∈ K st)
+    (s : MtState σ) (hwf : tableWF (s.2.map (·.1)) = true) (x : Key) (hx : x ≠ [])
+    (hc : (M P).contains s x = .ok true) (ks : List Key) (h : (M P).keys s = .ok ks) : x ∈ ks := by
+  obtain ⟨ks', h1, h2, _⟩ := mount_union_keys P K hK s hwf
+  rw [h1] at h
+  cases h
+  rw [h2]
+  by_cases ha : Above s.2 x
+  · rcases ha with e | ⟨p, st, hm, hp⟩
+    · exact absurd e hx
+    · exact Or.inl ⟨hx, p, st, hm, hp⟩
+  · have key : ∀ (st : σ) (k : Key), k ≠ [] → (match P.isDir st k with
+        | .error e => .error e
+        | .ok true => .ok true
+        | .ok false => P.contains st k : Except StoreErr Bool) = .ok true → k ∈ K st := by
+      intro st k hk hmatch
+      apply hC st k hk
+      split at hmatch
+      · cases hmatch
+      · rename_i hd; exact Or.inl hd
+      · exact Or.inr hmatch
+    rcases owns_or_nomount s.2 hwf x with ⟨i, ho⟩ | hn
+    · obtain ⟨p, st, hi, hpx, _⟩ := id ho
+      rw [mount_contains_part P s hwf x ha i p st hi ho] at hc
+      have hne : x.drop p.length ≠ [] := by
+        intro e
+        obtain ⟨t, rfl⟩ := hpx
+        simp at e
+        subst e
+        exact not_above_ne ha hi (by simp)
+      refine Or.inr (Or.inl ⟨i, p, st, x.drop p.length, hi, key st _ hne hc, hne, ?_, ho⟩)
+      exact (inverse_drop hpx).symm
+    · rw [mount_contains_default P s x ha hn] at hc
+      cases hd : s.1 with
+      | none => rw [hd] at hc; cases hc
+      | some d =>
+        rw [hd] at hc
+        exact Or.inr (Or.inr ⟨d, rfl, key d x hx hc, hn⟩)
+
+theorem spec_keys (fs : FS) : specOps.keys fs = .ok (fs.map (·.1)) := rfl
+
+/-- the reference store lists what it contains (files and directories) -/
+theorem spec_contains_listed (fs : FS) (k : Key) (hk : k ≠ [])
+    (h : specOps.isDir fs k = .ok true ∨ specOps.contains fs k = .ok true) : k ∈ fs.map (·.1) := by
+  rw [FS.mem_keys_iff]
+  have hke : k.isEmpty = false := by simpa using hk
+  rcases h with h | h
+  · have : fs.isDirB k = true := by injection h
+    simp only [FS.isDirB, hke, Bool.false_or, beq_iff_eq] at this
+    rw [this]; rfl
+  · have : fs.containsB k = true := by injection h
+    simpa only [FS.containsB, hke, Bool.false_or] using this
+
+/-- … and conversely contains what it lists -/
+theorem spec_listed_contains (fs : FS) (k : Key) (h : k ∈ fs.map (·.1)) :
+    (match specOps.isDir fs k with
+      | .error e => .error e
+      | .ok true => .ok true
+      | .ok false => specOps.contains fs k : Except StoreErr Bool) = .ok true := by
+  rw [FS.mem_keys_iff] at h
+  show (match (Except.ok (fs.isDirB k) : Except StoreErr Bool) with
+      | .error e => .error e
+      | .ok true => .ok true
+      | .ok false => (Except.ok (fs.containsB k) : Except StoreErr Bool) : Except StoreErr Bool) = .ok true
+  cases hd : fs.isDirB k with
+  | true => rfl
+  | false => simp [FS.containsB, h]
+
+/-- **`keys()` is complete** (the statement that was false before fix D7f) -/
+theorem mount_keys_complete : mount_keys_complete_statement := by
+  intro s x ks hwf hx hc h
+  exact mount_keys_complete_gen specOps (fun fs => fs.map (·.1)) spec_keys spec_contains_listed s hwf x hx hc ks h
+
+/-- **`keys()` is exact**: a non-root key is listed iff the composite contains it -/
+theorem mount_keys_exact (s : MtState FS) (hwf : tableWF (s.2.map (·.1)) = true) (ks : List Key)
+    (h : (M specOps).keys s = .ok ks) (x : Key) (hx : x ≠ []) :
+    x ∈ ks ↔ (M specOps).contains s x = .ok true := by
+  refine ⟨?_, fun hc => mount_keys_complete s x ks hwf hx hc h⟩
+  intro hm
+  by_cases ha : Above s.2 x
+  · exact mount_contains_above specOps s x ha
+  · obtain ⟨ks', h1, h2, _⟩ := mount_union_keys specOps (fun fs => fs.map (·.1)) spec_keys s hwf
+    rw [h1] at h
+    cases h
+    rcases (h2 x).mp hm with ⟨_, p, st, hp, hpx⟩ | ⟨i, p, st, kk, hi, hkk, _, rfl, ho⟩ | ⟨d, hd, hxd, hn⟩
+    · exact absurd (Or.inr ⟨p, st, hp, hpx⟩) ha
+    · rw [mount_contains_part specOps s hwf _ ha i p st hi ho]
+      have hdrop : (p ++ kk).drop p.length = kk := by simp
+      rw [hdrop]
+      exact spec_listed_contains st kk hkk
+    · rw [mount_contains_default specOps s x ha hn, hd]
+      exact spec_listed_contains d x hxd
+
+/-- **every contained key exactly once**: with tree-shaped parts, `keys()` succeeds, has no repetition and lists
+exactly the non-root keys the composite contains -/
+theorem mount_keys_once (s : MtState FS) (hwf : tableWF (s.2.map (·.1)) = true)
+    (hparts : ∀ e, e ∈ s.2 → e.2.tree = true) (hdflt : ∀ d, s.1 = some d → d.tree = true) :
+    ∃ ks, (M specOps).keys s = .ok ks ∧ ks.Nodup ∧ [] ∉ ks ∧
+      ∀ x, x ≠ [] → (x ∈ ks ↔ (M specOps).contains s x = .ok true) := by
+  obtain ⟨ks, h1, h2, h3⟩ := mount_union_keys specOps (fun fs => fs.map (·.1)) spec_keys s hwf
+  refine ⟨ks, h1, h3 (fun e he => ((FS.tree_iff e.2).mp (hparts e he)).nodup)
+    (fun d hd => ((FS.tree_iff d).mp (hdflt d hd)).nodup), ?_, fun x hx => mount_keys_exact s hwf ks h1 x hx⟩
+  intro hnil
+  rcases (h2 []).mp hnil with ⟨hne, _⟩ | ⟨i, p, st, kk, hi, _, hkk, e, _⟩ | ⟨d, hd, hxd, _⟩
+  · exact hne rfl
+  · have := congrArg List.length e
+    simp at this
+    exact hkk (List.eq_nil_of_length_eq_zero (by omega))
+  · exact ((FS.tree_iff d).mp (hdflt d hd)).nonroot [] ((FS.mem_keys_iff d []).mp hxd) rfl
 
 /-! ### witnesses, non-vacuity -/
 
@@ -284,12 +407,13 @@ example : ¬ to_root_key_reaches_statement := by
   revert this
   decide
 
-/-- the parents of a mount point are contained but not listed -/
-example : ¬ mount_keys_complete_statement := by
-  intro h
-  have := h s2 ka [kab, [['a'], ['b'], ['y']]] (by decide) (by decide) (by decide) (by decide)
-  revert this
-  decide
+/-- the parent of a mount point is contained and (since fix D7f) listed: mount `a/b`, no default store -/
+example : (M specOps).contains s2 ka = .ok true := by decide
+example : (M specOps).keys s2 = .ok [kab, [['a'], ['b'], ['y']], ka] := by decide
+example : ka ∈ [kab, [['a'], ['b'], ['y']], ka] :=
+  mount_keys_complete s2 ka _ (by decide) (by decide) (by decide) (by decide)
+-- `mount_keys_once` applies to the witnesses: the parts are trees
+example : (∀ e, e ∈ s1.2 → e.2.tree = true) ∧ (∀ d, s1.1 = some d → d.tree = true) := by decide
 
 /-! ### to_root_key through nested mount-point stores -/
 
@@ -319,5 +443,5 @@ example : Mt.toRootKeyChain [["gui".toList], ["web".toList]] [["index.html".toLi
 
 end Liquer.C14
 
--- OBLIGATIONS: Liquer.C14.route_exclusive Liquer.C14.route_exclusive_default Liquer.C14.hit_iff_prefix Liquer.C14.route_innermost Liquer.C14.prefix_strips Liquer.C14.prefix_strips_reads Liquer.C14.mount_union_above Liquer.C14.mount_union_part Liquer.C14.mount_union_default Liquer.C14.mount_union_meta_key Liquer.C14.mount_union_listdir_part Liquer.C14.mount_union_listdir_default Liquer.C14.mount_union_listdir_noroute Liquer.C14.mount_union_keys Liquer.C14.mount_write_exclusive Liquer.C14.mount_write_frame Liquer.C14.mount_write_default_only Liquer.C14.mount_removedir_refuses Liquer.C14.to_root_key_reaches_partial Liquer.C14.to_root_key_default Liquer.C14.mount_keys_complete_partial Liquer.C14.to_root_key_chain Liquer.C14.to_root_key_nested_reaches
--- STATEMENT-ONLY: Liquer.C14.to_root_key_reaches_statement Liquer.C14.mount_keys_complete_statement
+-- OBLIGATIONS: Liquer.C14.route_exclusive Liquer.C14.route_exclusive_default Liquer.C14.hit_iff_prefix Liquer.C14.route_innermost Liquer.C14.prefix_strips Liquer.C14.prefix_strips_reads Liquer.C14.mount_union_above Liquer.C14.mount_union_part Liquer.C14.mount_union_default Liquer.C14.mount_union_meta_key Liquer.C14.mount_union_listdir_part Liquer.C14.mount_union_listdir_default Liquer.C14.mount_union_listdir_noroute Liquer.C14.mount_union_keys Liquer.C14.mount_write_exclusive Liquer.C14.mount_write_frame Liquer.C14.mount_write_default_only Liquer.C14.mount_removedir_refuses Liquer.C14.to_root_key_reaches_partial Liquer.C14.to_root_key_default Liquer.C14.mount_keys_complete_partial Liquer.C14.mount_keys_complete_gen Liquer.C14.mount_keys_complete Liquer.C14.mount_keys_exact Liquer.C14.mount_keys_once Liquer.C14.to_root_key_chain Liquer.C14.to_root_key_nested_reaches
+-- STATEMENT-ONLY: Liquer.C14.to_root_key_reaches_statement
